@@ -4,6 +4,7 @@ package main
 // analyses) and accept.go (accept-loop shape).
 
 import (
+	"strings"
 	"fmt"
 	"go/token"
 	"go/types"
@@ -302,10 +303,14 @@ func c14Handlers(w *World, r *Report) {
 // ---------------------------------------------------------------- C15
 
 func checkC15(w *World, r *Report) {
-	r.Explanation = "Decides the accept-loop shape behind 'one stalled peer delays only itself': in every listener accept loop of package server the call that performs the peer's handshake (AcceptConnection -> NewServerConnection -> blocking header read / TLS handshake) is not synchronous inside the loop, and the loop itself performs no read on the accepted connection. HttpServer's handler runs on net/http's per-request goroutine (trusted); IoServer has a single peer. Not decided: fairness under load, lazy TLS accept inside tls.Listen, time bounds."
+	r.Explanation = "Decides the accept-loop shape behind 'one stalled peer delays only itself': in every listener accept loop of package server the call that performs the peer's handshake (AcceptConnection -> NewServerConnection -> blocking header read / TLS handshake) is not synchronous inside the loop, and the loop itself performs no read on the accepted connection; (R15.2) no function of the server/stream packages calls, while holding a mutex field, anything that locks the same field again (static callees, interface implementers, functions stored in func-typed fields) — a self-deadlock in the DNS listener's pruner wedges the user table for every later peer. HttpServer's handler runs on net/http's per-request goroutine (trusted); IoServer has a single peer. Not decided: fairness under load, lazy TLS accept inside tls.Listen, time bounds."
 	r.NotDecided = []string{"fairness under load", "time bounds", "crypto/tls lazy handshake behaviour of tls.Listen"}
 	r.Trusted = []string{"net/http serves each request on its own goroutine", "calls into libraries are non-blocking unless listed as blocking primitives"}
 	r.Rule("R15.1", "server listener accept loops hand the peer handshake to a goroutine", 2)
+	r.Rule("R15.2", "no server-side goroutine re-locks a mutex it already holds (one stale peer must not wedge the user table)", 1)
+	ruleNoReentrantLock(w, r, "R15.2", func(p string) bool {
+		return p == modPath+"/internal/server" || strings.HasPrefix(p, modPath+"/internal/streams")
+	})
 	ruleAcceptLoopNotOccupied(w, r, "R15.1", map[string]bool{"listener": true}, func(al acceptLoop) bool {
 		return al.Fn.Pkg != nil && al.Fn.Pkg.Pkg.Path() == modPath+"/internal/server"
 	})
@@ -370,10 +375,12 @@ func checkC17(w *World, r *Report) {
 	r.Rule("R17.1", "close only after the copy into that side finished; EOF reported only after a clean copy", 2)
 	r.Rule("R17.2", "both ends closed after PipeData on every path", 3)
 	r.Rule("R17.3", "DNS end-of-stream only after buffered data; client Close notifies the server first", 3)
+	r.Rule("R17.5", "a reader+writer pair closes its write half on every path (the peer's end-of-stream)", 1)
 	r.Rule("R17.4", "open transfers are not cut by another logical connection's failure (who may close the shared session)", 2)
 	ruleR17_1(w, r)
 	ruleBothEndsClosed(w, r, "R17.2")
 	ruleSharedSessionClosers(w, r, "R17.4")
+	rulePairClosesBothHalves(w, r, "R17.5")
 
 	eofVar := w.ByPath["io"].Types.Scope().Lookup("EOF")
 	hasData := w.Method("internal/streams/dns/util", "InQueue", "HasData")
@@ -671,6 +678,40 @@ func onlyFromShutdown(w *World, fn *ssa.Function, shutdown *types.Func, depth in
 			if sCallee(c) == obj && !c.Common().IsInvoke() {
 				n++
 				if !onlyFromShutdown(w, caller, shutdown, depth+1) {
+					return false
+				}
+			}
+		}
+	}
+	return n > 0
+}
+
+// onlyCalledFromNamed: fn is (inside) a function named `name`, or every static call of it in the module
+// comes from such a function (transitively, depth <= 3).
+func onlyCalledFromNamed(w *World, fn *ssa.Function, name string, depth int) bool {
+	if fn == nil || depth > 3 {
+		return false
+	}
+	f0 := fn
+	for f0.Parent() != nil {
+		f0 = f0.Parent()
+	}
+	if o := fnObj(f0); o != nil && o.Name() == name {
+		return true
+	}
+	obj := fnObj(fn)
+	if obj == nil {
+		return false
+	}
+	n := 0
+	for caller := range allModuleFuncs(w, w.SSA()) {
+		for _, c := range callsIn(caller) {
+			if sCallee(c) == obj && !c.Common().IsInvoke() {
+				if _, isGo := c.(*ssa.Go); isGo {
+					return false
+				}
+				n++
+				if !onlyCalledFromNamed(w, caller, name, depth+1) {
 					return false
 				}
 			}
